@@ -43,3 +43,44 @@ async fn replay_get_current_non_certified_open_message() {
     let r = run(vec![(Msd, Some((true, false))), (Csd, None)], true).await.expect("no open message created for a type without one");
     assert!(SignedEntityTypeDiscriminants::from(&r.signed_entity_type) == Csd && !r.is_certified && !r.is_expired);
 }
+
+/// outdated exactly when the stored open message has expired or the configuration derives another signed entity for the type
+#[tokio::test]
+async fn replay_is_open_message_outdated() {
+    for (expired, newer) in [(false, false), (true, false), (false, true), (true, true)] {
+        let got = is_outdated_returned_when(temp_dir!(), if expired { IsExpired::Yes } else { IsExpired::No }, newer).await;
+        assert_eq!(got, expired || newer, "is_open_message_outdated with expired = {}, newer signed entity = {} answered {}", expired, newer, got);
+    }
+}
+
+/// the runner hands the certifier's answers on unchanged: the chain check is the certifier's for the time point's epoch, a
+/// certificate is reported exactly when the certifier created one
+#[tokio::test]
+async fn replay_is_certificate_chain_valid() {
+    for ok in [true, false] {
+        let mut certifier = MockCertifierService::new();
+        certifier.expect_inform_epoch().returning(|_| Ok(()));
+        certifier.expect_verify_certificate_chain().withf(|e| *e == Epoch(7)).returning(move |_| if ok { Ok(()) } else { Err(anyhow::anyhow!("epoch gap")) });
+        let runner = build_runner_with_discriminants(temp_dir!(), certifier, vec![SignedEntityTypeDiscriminants::MithrilStakeDistribution]).await;
+        let r = runner.is_certificate_chain_valid(&TimePoint { epoch: Epoch(7), ..TimePoint::dummy() }).await;
+        assert_eq!(r.is_ok(), ok, "is_certificate_chain_valid answered {:?} although the certifier's chain verification for epoch 7 {}", r.is_ok(), if ok { "succeeded" } else { "FAILED" });
+    }
+}
+
+#[tokio::test]
+async fn replay_create_certificate() {
+    let t = SignedEntityType::MithrilStakeDistribution(Epoch(7));
+    for produced in [true, false] {
+        let mut certifier = MockCertifierService::new();
+        certifier.expect_inform_epoch().returning(|_| Ok(()));
+        certifier.expect_create_certificate().returning(move |_| Ok(if produced { Some(fake_data::certificate("hash")) } else { None }));
+        let runner = build_runner_with_discriminants(temp_dir!(), certifier, vec![SignedEntityTypeDiscriminants::MithrilStakeDistribution]).await;
+        let r = runner.create_certificate(&t).await.unwrap();
+        assert_eq!(r.is_some(), produced, "the runner reports a certificate = {} although the certifier produced = {}", r.is_some(), produced);
+    }
+    let mut certifier = MockCertifierService::new();
+    certifier.expect_inform_epoch().returning(|_| Ok(()));
+    certifier.expect_create_certificate().returning(|_| Err(anyhow::anyhow!("verification failed")));
+    let runner = build_runner_with_discriminants(temp_dir!(), certifier, vec![SignedEntityTypeDiscriminants::MithrilStakeDistribution]).await;
+    assert!(runner.create_certificate(&t).await.is_err(), "the certifier's failure to create a certificate is swallowed");
+}
